@@ -127,6 +127,11 @@ pub fn run(ctx: &Ctx) {
     let mut space = gen::packet_space(2, thorough, if thorough { 3 } else { 2 });
     space.extend(gen::many_and_sized_packets());
     space.extend(gen::size_sweep_packets());
+    for (i, o) in gen::structured_options().into_iter().enumerate() {
+        let mut p = RefPacket { id: i as u16, flags: F_QR, opt: Some(RefOpt { udp: 1232, version: 0, options: vec![o] }), ..Default::default() };
+        p.questions.push(RefQ { name: crate::refmodel::RefName::txt("example.com"), qtype: 1, qclass: 1, unicast: false });
+        space.push(p);
+    }
     let n_base = space.len();
     space.extend(gen::cross_family(if thorough { 2 } else { 1 }, thorough));
     let chunks: Vec<&[RefPacket]> = space.chunks(128).collect();
